@@ -3,11 +3,57 @@ package kstatus
 import (
 	"fmt"
 	"math/rand"
+	"strings"
 
+	"sigs.k8s.io/cli-utils/pkg/kstatus/status"
 	"verifharness/emit"
 )
 
-const imports = "From CliUtils Require Import Base.Json Model.KStatus Corr.CorrKStatus Corr.CorrC09 Corr.CorrC07 Corr.CorrC08."
+// probeCorpus: the shapes that delimit the acceptance set of
+// runtime.DefaultUnstructuredConverter.FromUnstructured into
+// status.ObjWithConditions (DESIGN 5.3).
+func probeCorpus() []string {
+	return []string{
+		`{}`, `{"status":null}`, `{"status":{}}`, `{"status":"s"}`, `{"status":[]}`, `{"status":7}`, `{"status":true}`, `{"status":1.5}`,
+		`{"status":{"conditions":null}}`, `{"status":{"conditions":[]}}`, `{"status":{"conditions":"s"}}`, `{"status":{"conditions":""}}`,
+		`{"status":{"conditions":{}}}`, `{"status":{"conditions":{"type":"Ready"}}}`, `{"status":{"conditions":7}}`, `{"status":{"conditions":false}}`,
+		`{"status":{"conditions":[null]}}`, `{"status":{"conditions":["x"]}}`, `{"status":{"conditions":[7]}}`, `{"status":{"conditions":[[]]}}`,
+		`{"status":{"conditions":[{}]}}`, `{"status":{"conditions":[{"type":null,"status":null,"reason":null,"message":null}]}}`,
+		`{"status":{"conditions":[{"type":"Ready","status":"Maybe","reason":"r","message":"m"}]}}`,
+		`{"status":{"conditions":[{"type":7}]}}`, `{"status":{"conditions":[{"type":"T","status":true}]}}`,
+		`{"status":{"conditions":[{"type":"T","status":"True","reason":1.5}]}}`, `{"status":{"conditions":[{"type":"T","status":"True","message":["m"]}]}}`,
+		`{"status":{"conditions":[{"type":"T","status":"True","message":{"a":"b"}}]}}`,
+		`{"status":{"conditions":[{"Type":"Ready","Status":"True"}]}}`, `{"status":{"conditions":[{"type":"Ready","status":"True","unknown":{"x":[1,2]},"lastTransitionTime":5}]}}`,
+		`{"status":{"conditions":[{"type":"A","status":"True"},null,{"type":"B"}]}}`, `{"status":{"conditions":[{"type":"A","status":"True"},"x",{"type":"B"}]}}`,
+		`{"metadata":"str","status":{"conditions":[{"type":"Ready","status":"False"}]}}`, `{"Status":{"conditions":"ignored"}}`,
+		`{"status":{"Conditions":"ignored","conditions":[{"type":"A"}]}}`, `{"status":{"conditions":[{"type":"","status":""}]}}`,
+	}
+}
+
+func probeCase(obj map[string]interface{}) (term, text string) {
+	out, panicked := "None", false
+	short := "error"
+	func() {
+		defer func() {
+			if e := recover(); e != nil {
+				panicked, short = true, fmt.Sprint("PANIC ", e)
+			}
+		}()
+		o, err := status.GetObjectWithConditions(CopyObj(obj))
+		if err == nil {
+			var qs4, ts []string
+			for _, c := range o.Status.Conditions {
+				qs4 = append(qs4, "("+qs(c.Type)+", "+qs(string(c.Status))+", "+qs(c.Reason)+", "+qs(c.Message)+")")
+				ts = append(ts, c.Type+"="+string(c.Status))
+			}
+			out = "(Some " + emit.List(qs4) + ")"
+			short = "[" + strings.Join(ts, ",") + "]"
+		}
+	}()
+	return "(PC " + JV(obj) + " " + out + " " + emit.Bool(panicked) + ")", "probe " + Text(obj) + " -> " + short
+}
+
+const imports = "From CliUtils Require Import Base.Json Model.KStatus Corr.CorrKStatus Corr.CorrC09."
 
 // witnessC09 is the former panic witness (unchecked assertions in
 // getCrashLoopingContainers): a Running, not-Ready Pod whose
@@ -83,6 +129,27 @@ func RunC09(seed int64, tier, outDir string) (*emit.Summary, error) {
 	if err := rc.sh.write(outDir, sum); err != nil {
 		return nil, err
 	}
+	// converter probe: fixed corpus + every systematic mutant under .status of the condition-bearing bases
+	psh := newShard("Cases_C09_probe", imports, "check_probe", 700)
+	for _, t := range probeCorpus() {
+		term, text := probeCase(Parse(t))
+		psh.add(term, text, true)
+		sum.Count("probe:corpus")
+	}
+	for _, b := range bases {
+		for _, m := range systematicMutants(b) {
+			if strings.Contains(m.tag, " .status") {
+				term, text := probeCase(m.obj)
+				psh.add(term, text, true)
+				sum.Count("probe:malformed-status")
+			}
+		}
+	}
+	if err := psh.write(outDir, sum); err != nil {
+		return nil, err
+	}
+	rc.sh.terms = append(rc.sh.terms, psh.terms...)
+	rc.sh.nontr = append(rc.sh.nontr, psh.nontr...)
 	sum.Evaluations = len(rc.sh.terms)
 	sum.DistinctNontrivial = emit.Distinct(rc.sh.terms, rc.sh.nontr)
 	sum.Rule = "every case is status.Compute on one object under recover(), input deep-copied before and compared after, called twice; " +
